@@ -22,7 +22,7 @@ THEOREMS = [
     "Mro.overrides_eq_super", "Mro.overriding_sound", "Mro.overriding_nodup", "Mro.overriding_duplicate_counterexample",
     "Mro.inherited_members_iff", "Mro.inherited_attribution",
     "Mro.early_eq_mro_partial", "Mro.findEarly_eq_find_partial", "Mro.findEarly_diamond_counterexample",
-    "Mro.second_pass_canonical", "Mro.second_pass_trigger_independent", "Mro.second_pass_wrong_scope_counterexample",
+    "Mro.second_pass_swapped_order_counterexample", "Mro.second_pass_canonical", "Mro.second_pass_trigger_independent", "Mro.second_pass_wrong_scope_counterexample",
 ]
 RULE = ("exhaustive: every hierarchy of n<=5 classes in which class i takes any ordered duplicate-free list of bases "
         "among classes 1..i-1 (10573 hierarchies, 10400 at n=5), plus every hierarchy of n<=4 classes with base lists of "
@@ -192,6 +192,12 @@ def bare_oracle(ctx: Ctx, h, pd, py, why) -> None:
 
 # ------------------------------------------------------------------ full path
 
+def DOCTEXT(rng, c: int, empty: bool) -> str:
+    if empty:
+        return rng.choice(['""', "'''   '''", '"""\n        """', "''"])
+    return "'''doc of C%d'''" % c
+
+
 GENERIC = 1   # class id of typing.Generic in the full-path streams (object = 0, own classes from 2)
 
 
@@ -211,7 +217,9 @@ def gen_project(rng, nclasses: int, generic_anywhere: bool = False, h=None) -> D
     for idx, c in enumerate(ids):
         modof[c] = sum(1 for x in cuts if x <= idx)
     own = {c: rng.random() < 0.5 for c in ids}
-    doc = {c: own[c] and rng.random() < 0.5 for c in ids}
+    doc = {c: own[c] and rng.random() < 0.6 for c in ids}
+    # an override with an explicitly empty / whitespace-only docstring (the idiom that suppresses an inherited one)
+    empty = {c: doc[c] and rng.random() < 0.3 for c in ids}
     bases: Dict[int, List[int]] = {}
     subs: Dict[int, List[int]] = {}
     mods: Dict[int, List[str]] = {m: ["from typing import Generic, TypeVar\n", "T = TypeVar('T')\n"] for m in range(nmod)}
@@ -247,12 +255,12 @@ def gen_project(rng, nclasses: int, generic_anywhere: bool = False, h=None) -> D
         subs[c] = [1 if e.endswith("]") else 0 for e in exprs]
         head = "class C%d%s:\n" % (c, "(%s)" % ", ".join(exprs) if exprs else "")
         if own[c]:
-            body = "    def m(self):\n        %s\n" % ("'''doc of C%d'''" % c if doc[c] else "pass")
+            body = "    def m(self):\n        %s\n" % (DOCTEXT(rng, c, empty[c]) if doc[c] else "pass")
         else:
             body = "    pass\n"
         mods[m].append(head + body)
     return {"n": nclasses, "bases": {str(c): bases[c] for c in ids}, "subs": {str(c): subs[c] for c in ids}, "modules": {"m%d" % m: "".join(mods[m]) for m in range(nmod)},
-            "own": [c for c in ids if own[c]], "doc": [c for c in ids if doc[c]],
+            "own": [c for c in ids if own[c]], "doc": [c for c in ids if doc[c]], "empty": [c for c in ids if empty[c]],
             "order": rng.sample(["m%d" % m for m in range(nmod)], nmod)}
 
 
@@ -262,7 +270,8 @@ def project_tokens(p) -> Tuple[str, str, str]:
     h = [[], []] + [p["bases"][str(c)] for c in ids]
     subs = p.get("subs") or {str(c): [1 if b == GENERIC else 0 for b in p["bases"][str(c)]] for c in ids}
     sb = [[], []] + [subs[str(c)] for c in ids]
-    return (ltoken(h) + " " + ltoken(sb), ",".join(map(str, p["own"])) or "-", ",".join(map(str, p["doc"])) or "-")
+    return (ltoken(h) + " " + ltoken(sb), ",".join(map(str, p["own"])) or "-",
+            (",".join(map(str, p["doc"])) or "-") + " " + (",".join(map(str, p.get("empty", []))) or "-"))
 
 
 def pd_full(p, order: Optional[Sequence[str]] = None) -> Tuple[Dict[int, Dict[str, Any]], Optional[str]]:
@@ -297,7 +306,7 @@ def pd_full(p, order: Optional[Sequence[str]] = None) -> Tuple[Dict[int, Dict[st
     def ident(o) -> int:
         if isinstance(o, str):
             return GENERIC if o == "typing.Generic" else -1
-        return int(o.name[1:])
+        return int(o.name[1:]) if o.name[1:].isdigit() else -2     # -2: a decoy class that only rebinds a name
     res: Dict[int, Dict[str, Any]] = {}
     # what compute_mro's second pass (init_finalbaseobjects) started from and what it left behind
     allcls = list(system.objectsOfType(model.Class))
@@ -428,7 +437,7 @@ def _py_results(p, mods, status) -> Dict[int, Dict[str, Any]]:
                 # attribute lookup along the order: own docstring, else the next definition that has one
                 src = next((ident[k] for k in t.__mro__ if "m" in k.__dict__ and k.__dict__["m"].__doc__ is not None), None)
                 d = inspect.getdoc(t.__dict__["m"])
-                getdoc = int(d.split("C")[1]) if d else None
+                getdoc = None if d is None else int(d.split("C")[1]) if d.strip() else "e"   # "e": an empty docstring
             res[c] = {"status": "ok", "mro": [ident[k] for k in t.__mro__],
                       "find": ident[owner] if owner is not None else None, "docsrc": src, "getdoc": getdoc}
         return res
@@ -463,7 +472,9 @@ def gen_cyclic(rng, nclasses: int, h=None, spread: bool = False) -> Dict[str, An
         modof = {c: rng.randrange(nmod) for c in ids}
     generic = {c: rng.random() < 0.2 for c in ids}
     own = {c: rng.random() < 0.6 for c in ids}
-    doc = {c: own[c] and rng.random() < 0.5 for c in ids}
+    doc = {c: own[c] and rng.random() < 0.6 for c in ids}
+    # an override with an explicitly empty / whitespace-only docstring (the idiom that suppresses an inherited one)
+    empty = {c: doc[c] and rng.random() < 0.3 for c in ids}
     tops: Dict[int, List[str]] = {m: [] for m in range(nmod)}
     body: Dict[int, List[str]] = {m: [] for m in range(nmod)}
     modimp: Dict[int, Dict[int, str]] = {m: {} for m in range(nmod)}     # module -> other module -> spelling of it
@@ -483,6 +494,8 @@ def gen_cyclic(rng, nclasses: int, h=None, spread: bool = False) -> Dict[str, An
     imported: Dict[int, Dict[int, str]] = {m: {} for m in range(nmod)}
     bases: Dict[int, List[int]] = {}
     subs: Dict[int, List[int]] = {}
+    rebound: List[int] = []
+    spent: Dict[Tuple[int, int], List[str]] = {}
     for c, b in zip(ids, h):
         m = modof[c]
         exprs = []
@@ -498,17 +511,19 @@ def gen_cyclic(rng, nclasses: int, h=None, spread: bool = False) -> Dict[str, An
                     # two hops: a third module re-imports the class under another name; the name as expanded in the
                     # declaring module (pkg.mi.Via_j) is then no object's full name, only resolveName gets there
                     mi = rng.choice(via)
+                    name = "Base_%d" % j if (m, j) not in spent else "Base_%d_%d" % (j, len(spent[(m, j)]))
                     body[mi].append("from %s.m%d import C%d as Via_%d_%d\n" % (PKG, modof[j], j, j, c))
-                    body[m].append("from %s.m%d import Via_%d_%d as Base_%d\n" % (PKG, mi, j, c, j))
-                    name = "Base_%d" % j
+                    body[m].append("from %s.m%d import Via_%d_%d as %s\n" % (PKG, mi, j, c, name))
                 elif style == 3 and modof[j] in modimp[m]:
                     name = "%s.C%d" % (modimp[m][modof[j]], j)      # attribute of the module imported at the top
                 elif style == 0:
                     body[m].append("from %s.m%d import C%d\n" % (PKG, modof[j], j))
                     name = "C%d" % j
                 else:
-                    body[m].append("from %s.m%d import C%d as Base_%d\n" % (PKG, modof[j], j, j))
-                    name = "Base_%d" % j
+                    # a fresh alias after the previous one was rebound by a def/class/assignment: pydoctor's scope keeps
+                    # a definition in front of a later import of the same name (name resolution, C04's layer)
+                    name = "Base_%d" % j if (m, j) not in spent else "Base_%d_%d" % (j, len(spent[(m, j)]))
+                    body[m].append("from %s.m%d import C%d as %s\n" % (PKG, modof[j], j, name))
                 imported[m][j] = name
             if generic[j] and rng.random() < 0.5:
                 name += rng.choice(["[T]", "[int]"])
@@ -521,14 +536,34 @@ def gen_cyclic(rng, nclasses: int, h=None, spread: bool = False) -> Dict[str, An
         subs[c] = [1 if e.endswith("]") else 0 for e in exprs]
         head = "class C%d%s:\n" % (c, "(%s)" % ", ".join(exprs) if exprs else "")
         if own[c]:
-            text = "    def m(self):\n        %s\n" % ("'''doc of C%d'''" % c if doc[c] else "pass")
+            text = "    def m(self):\n        %s\n" % (DOCTEXT(rng, c, empty[c]) if doc[c] else "pass")
         else:
             text = "    pass\n"
         body[m].append(head + text)
+        # the name the class statement used for a base is bound again further down in the same scope: Python took the
+        # class the name denoted at the statement; pydoctor's post-processing sees the final state of the scope
+        aliases = [j for j in b if imported[m].get(j, "").startswith("Base_")]
+        if aliases and rng.random() < 0.35:
+            j = rng.choice(aliases)
+            name = imported[m].pop(j)
+            spent.setdefault((m, j), []).append(name)
+            others = [q for q in ids if q < c and q != j and modof[q] != m]
+            kind = rng.randrange(4)
+            if kind == 0 and others:
+                q = rng.choice(others)
+                body[m].append("from %s.m%d import C%d as %s\n" % (PKG, modof[q], q, name))
+            elif kind == 1:
+                body[m].append("class %s:\n    def m(self):\n        '''decoy'''\n" % name)
+            elif kind == 2:
+                body[m].append("def %s():\n    pass\n" % name)
+            else:
+                body[m].append("%s = None\n" % name)
+            rebound.append(c)
     mods = {"m%d" % m: "".join(tops[m]) + "from typing import Generic, TypeVar\nT = TypeVar('T')\n" + "".join(body[m])
             for m in range(nmod)}
     return {"n": nclasses, "package": PKG, "bases": {str(c): bases[c] for c in ids}, "subs": {str(c): subs[c] for c in ids}, "modules": mods,
-            "own": [c for c in ids if own[c]], "doc": [c for c in ids if doc[c]], "order": sorted(mods)}
+            "own": [c for c in ids if own[c]], "doc": [c for c in ids if doc[c]], "empty": [c for c in ids if empty[c]], "order": sorted(mods),
+            "rebound": rebound}
 
 
 def py_cyclic(p, rng) -> Optional[Tuple[Dict[int, Dict[str, Any]], List[str]]]:
@@ -1110,6 +1145,7 @@ def run(ctx: Ctx) -> None:
         py, entry = r
         p["entry"] = entry
         ctx.count("cyclic:projects")
+        ctx.count("cyclic:projects-rebinding-a-base-name-after-the-class", int(bool(p.get("rebound"))))
         ctx.count("cyclic:modules=%d" % len(p["modules"]))
         orders = list(itertools.permutations(sorted(p["modules"])))
         ctx.rng.shuffle(orders)
